@@ -8,7 +8,7 @@ res = {}
 out = '/verif/mutations/results.json'
 if os.path.exists(out):
     res = json.load(open(out))
-combos = [("C08-archive-unconfirmed-pause,C08-ensurepaused-spec", "C08")]
+combos = [("C08-archive-unconfirmed-pause,C08-ensurepaused-spec", "C08"), ("C18-hoist-sources-config-field,C18-hoist-sources-config-use", "C18")]
 todo = [(m['id'], m['prop']) for m in cat['mutations']] + combos
 for mid, prop in todo:
     if only and prop not in only and mid not in only:
